@@ -39,12 +39,16 @@ func init() {
 			"Context dimension: for ALL scripts over {ok; GetChangeOps / endorsement write / TryCommit failing retriably or permanently; genuine conflict} with CommitRetries in {-1,0,1,2} (thorough: the 5-operation alphabet for {-2..2} and the 3-operation one for 3), for ALL 2-back-end scripts with CommitRetries in {0,1} and for ALL caller-change scripts with CommitRetries in {-1..3}, the context handed to the entry point becomes done (x {Canceled, DeadlineExceeded} x {back end ignores it; back end refuses every operation that starts afterwards}) before the call or during every reachable operation of every attempt (inside GetChangeOps = before the first / between attempts; inside a TryCommit that succeeds, fails retriably, fails permanently); the context is a scripted context.Context switched by the double, no clock involved; same oracle. " +
 			"The back end is a model with a committed head, snapshot workspaces and optimistic commits; the concurrent writer does a correct read-modify-write of the manifest. The seed only varies image, candidate name, directories, timestamp and whether the depot starts empty or with 2 manifest entries. " +
 			"Oracle over the call log: attempts <= max(retries,0)+1; attempt k+1 only if attempt k did not commit, its last back-end error was retriable and RetriableError answered true; every operation of attempt k is on the workspace obtained in attempt k and never on a destroyed one; a manifest write is preceded by a manifest read from the same workspace; Destroy exactly once per failed attempt that obtained a workspace; nil result <=> every back end accepted a commit; Result exactly once with that commit after it, never without a commit; committed manifest keeps every entry that the writer or an earlier run committed. " +
+			"Appended audit dimensions (same checker, each submission judged on its own call log): (i) option combinations in the quick tier: snapshot mode, snapshot mode with an SVSM image, snapshot mode on two back ends; (ii) budgets at the limits of the integer types (math.MinInt.., -(2^32)+k, -(2^31)-1, -65535, -255: one attempt allowed, scripts go on for three; 2^31.., math.MaxInt: chains of 0..6 retriable failures) through both entry points; (iii) kept values: 3-5 submissions in a row through ONE endorse.Context, ONE context around it, one or two back-end values (Context.VCS / VCSs[1] / VCSs[2]) and one change function, the caller changing CommitRetries, candidate, image, timestamp and entry point in between, PRNG-drawn scripts; the back-end model keeps its head, so every manifest entry committed by an earlier submission must survive, and a workspace obtained in an earlier submission counts as stale; (iv) lockstep groups: 2-3 independent submissions in flight in one process, a PRNG-driven scheduler gives the turn at every back-end operation (exactly one runs at a time, the interleaving is a function of the seed). " +
 			"non-trivial = runs with at least one failed attempt or one concurrent commit; distinct = (entry, mode, retries, attempts made, how it ended, concurrent commits seen, genuine conflicts seen) cells",
 		Assumptions: []string{
 			"negative budgets are read as 'no retries' (one attempt); stopping early is not judged (the property says 'at most') but the run is inconclusive unless, for every budget, some script was observed to use exactly max(retries,0)+1 attempts",
 			"a successful attempt is not required to destroy its workspace; the path passed to Result is not judged",
 			"dry-run is C15's subject and not exercised here; the concurrent writer never touches the candidate's own path or digest (that is C13's subject)",
 			"a cancellation that arrives during an operation does not change that operation's scripted answer (a commit in flight lands); the repository is not required to react to a done context, only to stay bounded and honest",
+			"CommitRetries == math.MinInt is run but not judged (const judgeMinIntBudget in extra.go): on the unchanged tree `CommitRetries - tries` wraps around there and the loop retries for as long as failures are retriable; counted as observed-but-gated/...",
+			"kept values: submissions of one sequence use different images and candidate names, so no submission legitimately rewrites another one's manifest entry (that is C13's subject); which back end a reused Context submits to after the caller changes Context.VCS is not judged",
+			"lockstep: submissions that are in flight together share nothing but the process (own Context, own back-end values); sharing one endorse.Context between goroutines is not exercised (VirtualFirmware writes Context.VCS)",
 			"fault positions are per attempt: n-th call of a kind inside the attempt; an operation the code never reaches cannot fail, the oracle therefore judges the logged answers, not the script",
 		},
 		ShardsQuick: 16, ShardsThor: 16, TimeoutS: 600, TimeoutThor: 3000, Run: run,
@@ -115,6 +119,11 @@ type job struct {
 	cancel   *cancelPoint // the context handed to the entry point becomes done there (nil: never)
 	deadline bool         // ... as context.DeadlineExceeded instead of context.Canceled
 	honour   bool         // the back ends refuse operations that start after the context is done
+
+	// audit dimensions (extra.go); zero for the original enumeration
+	dim  string // "" | option-combination | extreme-budget
+	snap bool   // snapshot mode although the mode text is not exactly "snapshot"
+	svsm bool   // an SVSM image is submitted with the firmware (snapshot mode writes two signatures)
 }
 
 func (j job) String() string {
@@ -361,6 +370,7 @@ func run(c *core.Ctx) {
 		c.End(i)
 	}
 	c.Max("scripts-enumerated-in-tier", int64(len(js)))
+	runAudit(c, w, ncase, fl)
 	if c.Only >= 0 {
 		return // a replay decides by its violations only
 	}
@@ -374,6 +384,9 @@ func run(c *core.Ctx) {
 		"context-done-between-attempts", "context-done-before-the-first-attempt", "context-done-before-the-call", "honouring-back-end-refused-an-operation-after-context-done"} {
 		c.Floor(n, fl[n])
 	}
+	for _, n := range auditFloors {
+		c.Floor(n, fl[n])
+	}
 }
 
 func runJob(c *core.Ctx, w *world, ci, k int, j job, r *rand.Rand, fl map[string]bool) {
@@ -384,7 +397,7 @@ func runJob(c *core.Ctx, w *world, ci, k int, j job, r *rand.Rand, fl map[string
 	initial := []int{0, 2}[r.IntN(2)]
 	ts := time.Unix(1700000000+int64(r.IntN(1<<20)), 0)
 	snapDir, imgName := "", ""
-	if j.mode == "snapshot" {
+	if j.mode == "snapshot" || j.snap {
 		snapDir, imgName = []string{"snap", "snap/x"}[r.IntN(2)], "fw.fd"
 	}
 	var vs []*vcs
@@ -413,6 +426,9 @@ func runJob(c *core.Ctx, w *world, ci, k int, j job, r *rand.Rand, fl map[string
 			Svn: uint32(r.IntN(2))},
 		ClSpec: 1, Image: img, Timestamp: ts, CandidateName: cand, OutDir: outDir, CommitRetries: j.retries,
 		SnapshotDir: snapDir, ImageName: imgName,
+	}
+	if j.svsm {
+		ec.SvsmImage = []byte("svsm igvm image of the c14 workload")
 	}
 	switch {
 	case len(vs) > 1:
@@ -447,6 +463,10 @@ func runJob(c *core.Ctx, w *world, ci, k int, j job, r *rand.Rand, fl map[string
 			continue
 		}
 		seen[f.Rule] = true
+		if notJudgedYet(j, f) {
+			c.Count("observed-but-gated/"+f.Rule+"/CommitRetries=math.MinInt", 1)
+			continue
+		}
 		errText := "<nil>"
 		if rerr != nil {
 			errText = rerr.Error()
@@ -556,6 +576,9 @@ func runJob(c *core.Ctx, w *world, ci, k int, j job, r *rand.Rand, fl map[string
 			c.Cell("%s|%s|retries=%d|%s|%s", j.entry, j.mode, j.retries, end, ctxCell)
 		}
 	}
+	if j.dim != "" {
+		extraEvidence(c, j, per, rerr, fl)
+	}
 	if k%997 == 0 {
 		errText := "<nil>"
 		if rerr != nil {
@@ -572,7 +595,7 @@ func callerChange(v *vcs) func(context.Context, endorse.ChangeOps) (string, erro
 		ws, _ := cops.(*workspace)
 		e := event{VCS: v.id, Ev: "change", Attempt: v.attempt}
 		if ws != nil {
-			e.WS = ws.id
+			e.WS = ws.wsID()
 			e.Dead = ws.destroyed > 0
 		}
 		if err := v.ctxGate("change", 1, "caller's change function"); err != nil {
